@@ -2,9 +2,9 @@
 SPEC = dict(
     title="Queued writes are applied in order and none are dropped",
     pkg="./http", files=["http/c23_verif_test.go"],
-    rule="quick: 5 hand-picked + 24 generated scenarios (thorough: 400), each a real http.Service with 1-5 concurrent clients x 5-40 queued requests "
+    rule="quick: 9 hand-picked + 24 generated scenarios (thorough: 400), each a real http.Service with 1-5 concurrent clients x 5-40 queued requests "
          "(1-3 sequence-tagged statements each, 0-100 % with &wait), batch size 1-128, capacity 1-1024, timeout 1-20 ms, 0-5 injected Execute failures "
-         "(no leader / error / error after apply), requests arriving while the leader is gone (503), checkpoint requests without statements, malformed bodies. "
+         "(no leader / error / error after apply), requests arriving while the leader is gone (503), checkpoint requests without statements, malformed bodies; stall scenarios (runQueue stuck on failing Execute calls for 2-3 s while 1-2 full batches back up and a trailing short batch with a &wait request times out, then success and no further request). "
          "A scenario is non-trivial when at least 2 batches were executed and at least one &wait request was answered; distinct by input and observed call sizes",
     exhaustive=False,
     trusted=["Model.C24's transcription of the queue (see C24)", "the store stub stands for store+raft: an Execute call either applies all its statements or none, and says which",
